@@ -220,7 +220,7 @@ class Region(object):
                         # remove the four pixels from this level
                         self.pixeldict[d].difference_update(nset)
                         # add a new pixel to the next level up
-                        self.pixeldict[d-1].add(p/4)
+                        self.pixeldict[d-1].add(p//4)
         self.demoted = set()
         return
 
